@@ -11,6 +11,7 @@ import (
 	"hash/fnv"
 	"os"
 	"path/filepath"
+	"runtime"
 	"sort"
 	"strconv"
 	"strings"
@@ -53,6 +54,11 @@ type Run struct {
 	violations  []string
 	exhaustive  map[string]bool
 	phase       int
+
+	wdMu      sync.Mutex
+	wdSince   time.Time
+	wdActive  bool
+	wdStarted bool
 }
 
 func envInt(name string, def int64) int64 {
@@ -268,17 +274,60 @@ func (r *Run) RecordFailure(kind string, c any, source string, msg string) {
 }
 
 // Inflight records the case about to be executed, so that a process death
-// can be attributed to it by vcheck. Cheap enough for stream-level cases only.
+// or a hang can be attributed to it by vcheck. Cheap enough for stream-level
+// cases only. It also arms the per-case watchdog.
 func (r *Run) Inflight(kind string, c any) {
 	raw, _ := json.Marshal(c)
 	ff := FailFile{Property: r.ID, Kind: kind, Message: "process died while executing this case", Case: raw}
 	b, _ := json.Marshal(ff)
 	os.WriteFile(filepath.Join(r.Out, fmt.Sprintf("inflight_%d.json", r.Shard)), b, 0o644)
+	r.wdMu.Lock()
+	r.wdSince = time.Now()
+	r.wdActive = true
+	if !r.wdStarted {
+		r.wdStarted = true
+		go r.watchdog()
+	}
+	r.wdMu.Unlock()
 }
 
-// InflightDone removes the in-flight marker.
+// InflightDone removes the in-flight marker and disarms the watchdog.
 func (r *Run) InflightDone() {
+	r.wdMu.Lock()
+	r.wdActive = false
+	r.wdMu.Unlock()
 	os.Remove(filepath.Join(r.Out, fmt.Sprintf("inflight_%d.json", r.Shard)))
+}
+
+// watchdog turns a case that never returns into a recorded hang: the in-flight
+// case is saved as hang_<shard>.json, goroutine stacks are dumped to the log
+// and the shard exits with status 3. vcheck decides whether a hang is a
+// violation (properties about termination) or inconclusive (all others).
+func (r *Run) watchdog() {
+	limit := time.Duration(envInt("VERIF_CASE_TIMEOUT", int64(r.Pick(180, 900)))) * time.Second
+	for {
+		time.Sleep(500 * time.Millisecond)
+		r.wdMu.Lock()
+		hung := r.wdActive && time.Since(r.wdSince) > limit
+		r.wdMu.Unlock()
+		if !hung {
+			continue
+		}
+		src := filepath.Join(r.Out, fmt.Sprintf("inflight_%d.json", r.Shard))
+		if b, err := os.ReadFile(src); err == nil {
+			var ff FailFile
+			if json.Unmarshal(b, &ff) == nil {
+				ff.Message = fmt.Sprintf("case did not return within %v (hang): a call into the library never came back", limit)
+				b, _ = json.MarshalIndent(ff, "", " ")
+			}
+			os.WriteFile(filepath.Join(r.Out, fmt.Sprintf("hang_%d.json", r.Shard)), b, 0o644)
+		}
+		buf := make([]byte, 1<<20)
+		n := runtime.Stack(buf, true)
+		fmt.Printf("VCHECK-HANG shard=%d limit=%v\n%s\n", r.Shard, limit, buf[:n])
+		r.Flush()
+		os.Exit(3)
+	}
 }
 
 // Fragment is what each shard leaves for vcheck to merge.
